@@ -22,7 +22,9 @@ func accepted(o *world.Obs) bool {
 		return false
 	}
 	if o.Location != "" {
-		return true
+		// the login-completed landing page, or the hand-over to the second factor; a redirect to the
+		// "account locked" / "not confirmed" pages is a refusal
+		return strings.HasPrefix(o.Location, "/ok/") || strings.Contains(o.Location, "/2fa/")
 	}
 	return o.UIDAfter() != "" && o.UIDAfter() != o.UIDBefore()
 }
@@ -100,9 +102,10 @@ func c12Monitor(st *engine.Step) {
 			}
 			return
 		}
-		if tag.Kind == "totp_validate" && st.S.Cfg.OneTimeUser {
+		if (tag.Kind == "totp_validate" || tag.Kind == "totp_remove") && st.S.Cfg.OneTimeUser {
 			if last := pre.Truth.Flags["c12:last-totp:"+x]; last != "" && last == tag.Secret {
-				st.Report(engine.Violation{Rule: "C12/totp-code-accepted-twice-in-a-row", Detail: "with replay protection enabled the same TOTP code completed two logins in a row"})
+				st.Report(engine.Violation{Rule: "C12/totp-code-accepted-twice-in-a-row", Attrs: "second-use=" + tag.Kind,
+					Detail: "with replay protection enabled the TOTP code that was accepted last was accepted again (" + tag.Kind + ")"})
 			}
 		}
 		if tag.Kind == "sms_validate" {
@@ -215,6 +218,16 @@ func c12Scenarios(tier string) []engine.Scenario {
 		Need: []string{"accepted:otplogin:otp", "refused:otplogin:otp:used", "otp-issued", "otp-add-refused"},
 	})
 
+	// the same with modules whose EventAuth hooks load and save the user themselves (lock) or issue tokens (remember)
+	{
+		withLock := out[len(out)-1]
+		withLock.Name = "otp+lock+remember"
+		withLock.Cfg = world.Config{Modules: []string{"auth", "otp", "lock", "remember", "logout"}, LockAfter: 3}
+		withLock.Depth = depth - 1
+		withLock.Need = []string{"accepted:otplogin:otp", "refused:otplogin:otp:used"}
+		out = append(out, withLock)
+	}
+
 	// one-time passwords as the first factor of an account that also has a second factor
 	out = append(out, engine.Scenario{
 		Name: "otp+totp", Depth: depth, Cfg: world.Config{Modules: []string{"auth", "otp", "totp2fa", "recovery", "logout"}},
@@ -274,6 +287,15 @@ func c12Scenarios(tier string) []engine.Scenario {
 							}, ""))
 						}
 						a = append(a, simple("regen("+b+")", func(s *world.Stack) world.Req { return flows.Regen(s, b) }))
+						if sec := w.DB.Users[subj].TOTPSecretKey; sec != "" {
+							// disabling with the code of the moment (the one the login may just have used)
+							code := flows.TOTPCode(w, sec, 0)
+							a = append(a, flows.A(fmt.Sprintf("totp-remove(%s,totp:now)", b), func(s *world.Stack, _ *world.World) world.Req {
+								r := flows.TOTPRemove(s, b, code, "")
+								r.Tag.Note = "totp:now"
+								return r
+							}, ""))
+						}
 					}
 					a = append(a, simple("logout("+b+")", func(s *world.Stack) world.Req { return flows.Logout(s, b) }))
 				}
